@@ -1,4 +1,5 @@
 import H2T.Lemmas.Balance
+import H2T.Lemmas.TagRich
 
 /-! # C09 — rich annotations mirror element nesting exactly
 
@@ -10,8 +11,13 @@ exactly the current stack (plus the preformat annotation inside `pre`); a sub-re
 parent's stack.  The `Table` arm now unwinds its style (fix 3cb7874), and **`compile` is proved bracketed for every
 render node** (`no_annotation_leaks`, from `Balance.compile_frame`): whatever happens inside an element — wrapping,
 nested blocks, sub-renderers, tables with their rows and cells, errors aside — its program hands the annotation stack,
-the `pre` depth, the white-space stack and the strikeout depth back exactly as it found them.  The document-level
-statement (tag vector = annotating ancestors) is decided by correspondence and the per-character oracle. -/
+the `pre` depth, the white-space stack and the strikeout depth back exactly as it found them.  **The document-level
+statement is proved for every render tree without tables and without `<pre>`** (`tags_are_annotating_ancestors`,
+`rich_tags_are_annotating_ancestors`): the characters of the rendered lines, with their tag vectors and in order, are
+those of the specification `nodeT` — each character of a text node tagged with the annotations of its annotating
+ancestors, outermost first — for every width, wrapping and block nesting (compared on a content alphabet that the block
+prefixes avoid, since a prefix is repeated on every line).  Tables (cells side by side) and `<pre>` (the continuation
+flag depends on wrapping) are decided by correspondence and the per-character oracle. -/
 
 namespace H2T.C09
 
@@ -145,6 +151,57 @@ theorem text_tag_is_stack (s : SubR) (cfg : Cfg) (x : List Ch) (f : Ann → Ann)
     `sub` and `cell` operations create `{ width := …, annStack := parent.annStack }` -/
 theorem colour_push_pop (s : SubR) (a : Ann) : ({ s with annStack := s.annStack ++ [a] } : SubR).annStack.dropLast = s.annStack := by
   simp
+
+/-! ## whole renderings: tag vector = annotating ancestors -/
+
+/-- **every visible character carries exactly the annotations of its annotating ancestors, outermost first**: for every
+    render tree without tables and without `<pre>` elements, every width, every configuration with footnotes off, every
+    decorator and every content alphabet `P` that the decorator's block prefixes avoid: the `P`-characters of the rendered
+    lines — with their tag vectors, in order — are exactly those of the specification `nodeT`, which walks the tree and
+    tags each character of a text node (and each decorator affix) with the annotations of the elements enclosing it.
+    Wrapping, block nesting, list/quote/heading sub-renderers and prefixes change neither a tag nor the order. -/
+theorem tags_are_annotating_ancestors (P : Ch → Bool) (cfg : Cfg) (d : Deco) (w : Nat) (tree : RNode) (ls : List RLine)
+    (hfn : cfg.footnotes = false) (hd : DecoAvoids P d) (ht : plainTree tree = true) (h : renderTree cfg d w tree = .ok ls) :
+    pf P (ls.flatMap trink) = pf P (nodeT cfg d [] 0 tree) :=
+  renderTree_tags P cfg d w tree ls hfn hd ht h
+
+/-- the same for the rich decorator (the one `from_read_rich`/`lines_from_read` use) and for the plain one, on every
+    character other than `#`, `>`, `*`, `-`, `.` and the digits (what `# `, `> `, `* `, `12. ` are made of) -/
+theorem rich_tags_are_annotating_ancestors (cfg : Cfg) (w : Nat) (tree : RNode) (ls : List RLine)
+    (hfn : cfg.footnotes = false) (ht : plainTree tree = true) (h : renderTree cfg Deco.rich w tree = .ok ls) :
+    pf richAlpha (ls.flatMap trink) = pf richAlpha (nodeT cfg Deco.rich [] 0 tree) :=
+  renderTree_tags richAlpha cfg Deco.rich w tree ls hfn rich_avoids ht h
+
+/-- with whitespace block prefixes (custom decorators; `dd` indentation) nothing needs to be filtered: *all* visible cells
+    of the output are those of the program, in order, with their tags -/
+theorem tagged_cells_are_the_programs (cfg : Cfg) (d : Deco) (w : Nat) (tree : RNode) (ls : List RLine) (hfn : cfg.footnotes = false)
+    (hs : tagOkOps (compile cfg d tree) = true) (h : renderTree cfg d w tree = .ok ls) :
+    ls.flatMap trink = (opsTink cfg d [] 0 (compile cfg d tree)).1 :=
+  renderTree_tink cfg d w tree ls hfn hs h
+
+/-- what the specification says about a text node: its visible characters, each tagged with the ancestors' annotations
+    followed by the node's own colours -/
+theorem spec_text (cfg : Cfg) (d : Deco) (st : Tag) (dep : Nat) (sty : Style) (s : List Ch) :
+    nodeT cfg d st dep (.text sty s) = (keep (iterN strikeFilter dep s)).map fun c => ⟨c, st ++ styleTags d sty⟩ := rfl
+
+/-- …and about an emphasis element: its children are walked with the emphasis annotation appended -/
+theorem spec_em (cfg : Cfg) (d : Deco) (st : Tag) (dep : Nat) (sty : Style) (kids : List RNode) :
+    nodeT cfg d st dep (.box sty .em kids) =
+      tcells (st ++ styleTags d sty ++ [d.annOf Ann.em]) dep d.emStart ++ listT cfg d (st ++ styleTags d sty ++ [d.annOf Ann.em]) dep kids ++
+        tcells (st ++ styleTags d sty ++ [d.annOf Ann.em]) dep d.emEnd := by
+  simp [nodeT]
+
+/-! non-vacuity: a list item with emphasis and a link, and a quoted coloured strong/strikeout run, at width 7 (every
+    block wraps): hypotheses hold and both sides are the fourteen tagged characters -/
+def exTree : RNode := .box {} .container [
+  .box {} .ul [.box {} .li [.box {} .em [.text {} (strCh "ab cd"), .box {} (.link (strCh "u")) [.text {} (strCh "ef gh")]]],
+               .box {} .quote [.box {} .block [.box {fg := some ⟨1,2,3⟩} .strong [.text {} (strCh "ij"), .box {} .strike [.text {} (strCh "kl")]]]]]]
+example : plainTree exTree = true := by decide
+example : ((renderTree {} Deco.rich 7 exTree).toOption.map fun ls => pf richAlpha (ls.flatMap trink)) = some (nodeT {} Deco.rich [] 0 exTree) := by
+  decide +kernel
+example : ((nodeT {} Deco.rich [] 0 exTree).map fun c => (c.ch.cp, c.tag.length)) =
+    [(97, 1), (98, 1), (99, 1), (100, 1), (101, 2), (102, 2), (103, 2), (104, 2), (105, 2), (106, 2), (107, 3), (822, 3), (108, 3), (822, 3)] := by
+  decide +kernel
 
 /-! non-vacuity: `<em>a<strong>b</strong>c</em>d` in rich mode: tags [E], [E,S], [E], [] -/
 example :
